@@ -22,6 +22,12 @@ CHECKS = {
             "findlinestarts / starts_line equal V's on observed code objects (dup_lines=False exact, dup_lines=True consistent superset); offset2line checked against a linear scan on every observed mapping.", "7/C05"),
     "C17": ("exploration", "differential runtime monitoring of 3.11+ exception/location tables against CPython co_positions/co_lines/_parse_exception_table",
             "Per code unit positions, line map and exception entries of observed 3.11-3.13 code objects equal V's.", "7/C17"),
+    "C08": ("exploration", "exhaustive runtime enumeration of the magic tables with CPython's registry comment and the installed interpreters as oracle",
+            "All 65536 magic ints, all registry rows, all known magics, all release names and all installed interpreters are checked on every run (exhaustive for the finite parts).", "7/C08"),
+    "C09": ("exploration", "exhaustive runtime enumeration of every opcode table against the interpreters' opcode modules + structural invariants, on several hosts",
+            "All opcode modules x 256 opcodes x category sets; equality with `opcode` of the 9 installed interpreters; reference-free invariants for the rest; tables dumped on several hosts must be identical.", "7/C09"),
+    "C15": ("exploration", "differential runtime monitoring over the (opcode, operand) grid against dis.stack_effect of each interpreter",
+            "Every opcode of 3.6-3.13 x a dense operand grid (0..300, powers of two +-1, samples; thorough 0..65536) equals dis.stack_effect wherever CPython accepts the pair; 2.x has no reference.", "7/C15"),
 }
 
 PENDING = {}
